@@ -44,6 +44,8 @@ pub fn weight_strategy() -> impl Strategy<Value = u64> {
         2 => 1u64..=(1u64 << 32),
         // documented no-op
         1 => Just(0u64),
+        // counters beyond 2^63 (a signed reading of the counter would be negative)
+        1 => (1u64 << 62)..=(1u64 << 63) + 1000,
     ]
 }
 
@@ -261,6 +263,9 @@ fn run_typed<T: FrequentItemValue + Hash + Eq + Clone + std::fmt::Debug>(
             Step::Update { sk, item, w } => {
                 let j = pick_idx((*sk as u16) << 8, n_sk);
                 let id = ((*item as u64) * domain) >> 16;
+                // the stream weight (and count + offset) must fit u64: a weight that would not is not offered
+                let w = if sides[j].total.checked_add(*w).map(|t| t < u64::MAX - (1 << 50)).unwrap_or(false) { *w } else { 1 };
+                let w = &w;
                 sides[j].sk.update_with_count(conv(id), *w);
                 *sides[j].truth.entry(id).or_insert(0) += *w;
                 sides[j].total += *w;
@@ -271,6 +276,8 @@ fn run_typed<T: FrequentItemValue + Hash + Eq + Clone + std::fmt::Debug>(
             }
             Step::Run { sk, shape, n, w, seed } => {
                 let j = pick_idx((*sk as u16) << 8, n_sk);
+                let w = if (*w as u128) * (*n as u128) + (sides[j].total as u128) < (u64::MAX - (1 << 50)) as u128 { *w } else { 1 };
+                let w = &w;
                 for id in stream(shape, *n as usize, domain, *seed) {
                     sides[j].sk.update_with_count(conv(id), *w);
                     *sides[j].truth.entry(id).or_insert(0) += *w;
@@ -286,6 +293,9 @@ fn run_typed<T: FrequentItemValue + Hash + Eq + Clone + std::fmt::Debug>(
                 let mut s = pick_idx((*src as u16) << 8, n_sk);
                 if s == d {
                     s = (d + 1) % n_sk;
+                }
+                if sides[d].total.checked_add(sides[s].total).map(|t| t >= u64::MAX - (1 << 50)).unwrap_or(true) {
+                    continue;
                 }
                 let (src_truth, src_total, src_sizes) = (sides[s].truth.clone(), sides[s].total, sides[s].sizes.clone());
                 if sides[s].sk.is_empty() && src_total > 0 {
